@@ -161,6 +161,51 @@ theorem isDone_true_after_listener (t1 t2 : List Ev) (c : St) (h : Trace.Run osy
   have hran := (isDone_imp_result s (reach_core s hreach) hdone).2
   exact listener_event_of_ran osys.init s t1 hrun (by decide) hran
 
+/-- **on traces**: an observation that `Done()` is closed comes after the completion listener's event -/
+theorem closed_after_listener (t1 t2 : List Ev) (c : St) (h : Trace.Run osys osys.init (t1 ++ Ev.seeClosed true :: t2) c) :
+    Ev.listener ∈ t1 := by
+  obtain ⟨b, hb1, hb2⟩ := Trace.Run.split_append t1 (Ev.seeClosed true :: t2) h
+  obtain ⟨b2, hb3, _⟩ := Trace.Run.split_cons hb2
+  obtain ⟨s, s', x, htau, hx, hsil, hsh, hst, _⟩ := Trace.Run.single_vis hb3
+  have hrun : Trace.Run osys osys.init t1 s := by
+    have := Trace.Run.append hb1 (Trace.Run.of_tau htau (Trace.Run.nil s))
+    simpa using this
+  have hreach : Trace.Reach osys s := Trace.Run.reach hrun Trace.Reach.init
+  have hsee : shows s .seeClosed (.seeClosed true) = true := by
+    cases x with
+    | seeClosed => exact hsh
+    | core c => cases c <;> simp [osys, shows] at hsh
+    | seeIsDone => simp [osys, shows] at hsh
+    | got => simp [osys, shows] at hsh
+  have hran := (seen_closed_imp s hreach hsee).2.2
+  exact listener_event_of_ran osys.init s t1 hrun (by decide) hran
+
+/-- **on traces**: a `Get()` that returned comes after the completion listener's event -/
+theorem got_after_listener (t1 t2 : List Ev) (c : St) (h : Trace.Run osys osys.init (t1 ++ Ev.got :: t2) c) :
+    Ev.listener ∈ t1 := by
+  obtain ⟨b, hb1, hb2⟩ := Trace.Run.split_append t1 (Ev.got :: t2) h
+  obtain ⟨b2, hb3, _⟩ := Trace.Run.split_cons hb2
+  obtain ⟨s, s', x, htau, hx, hsil, hsh, hst, _⟩ := Trace.Run.single_vis hb3
+  have hrun : Trace.Run osys osys.init t1 s := by
+    have := Trace.Run.append hb1 (Trace.Run.of_tau htau (Trace.Run.nil s))
+    simpa using this
+  have hreach : Trace.Reach osys s := Trace.Run.reach hrun Trace.Reach.init
+  cases x with
+  | got =>
+    have hst' : TraceFuture.step s .got = some s' := hst
+    have hss : s' = s := by
+      simp only [TraceFuture.step] at hst'
+      split at hst'
+      · simp only [Option.some.injEq] at hst'; exact hst'.symm
+      · cases hst'
+    rw [hss] at hst'
+    have hdone := (got_imp s hreach hst').1
+    have hran := (isDone_imp_result s (reach_core s hreach) hdone).2
+    exact listener_event_of_ran osys.init s t1 hrun (by decide) hran
+  | core c => cases c <;> simp [osys, shows] at hsh
+  | seeIsDone => simp [osys, shows] at hsh
+  | seeClosed => simp [osys, shows] at hsh
+
 /-- non-vacuity, decided by running the acceptor: a protocol-conforming trace is accepted; `IsDone() = true` before the completion
 listener, or `Done()` closed while `IsDone()` is still false afterwards, is rejected -/
 example : (Trace.accepts osys 20 [.seeIsDone false, .listener, .seeClosed false, .seeIsDone true, .seeClosed true, .got]).map (·.isEmpty) = some false := by decide
